@@ -12,39 +12,72 @@ open OLP OLP.Ledger
 
 /-- a debit touches nobody but the debited holder -/
 theorem minusFrom_only_src (l l' : L) (a b : Acc) (c : Int) (h : minusFrom l a c = .ok l')
-    (hb : b ≠ a) : bal l' b = bal l b := sorry
+    (hb : b ≠ a) : bal l' b = bal l b := by
+  obtain ⟨_, rfl⟩ := minusFrom_ok l l' a c h
+  exact bal_setBal_ne l a b _ hb
 
-theorem addTo_only_dst (l : L) (a b : Acc) (c : Int) (hb : b ≠ a) : bal (addTo l a c) b = bal l b := sorry
+theorem addTo_only_dst (l : L) (a b : Acc) (c : Int) (hb : b ≠ a) : bal (addTo l a c) b = bal l b := by
+  unfold addTo
+  exact bal_setBal_ne l a b _ hb
 
 /-- with a non-negative coin, a debit/credit pair decreases nobody but the source -/
 theorem transfer_debits_only_src (l l' : L) (s d a : Acc) (c : Int) (hc : 0 ≤ c)
-    (h : transfer l s d c = .ok l') (hd : bal l' a < bal l a) : a = s := sorry
+    (h : transfer l s d c = .ok l') (hd : bal l' a < bal l a) : a = s := by
+  obtain ⟨l₁, hm, rfl⟩ := transfer_ok l l' s d c h
+  by_cases has : a = s
+  · exact has
+  · exfalso
+    have h1 : bal l₁ a = bal l a := minusFrom_only_src l l₁ s a c hm has
+    by_cases had : a = d
+    · subst had
+      have h2 : bal (addTo l₁ a c) a = bal l₁ a + c := by
+        unfold addTo; exact bal_setBal_self l₁ a _
+      omega
+    · have h2 : bal (addTo l₁ d c) a = bal l₁ a := addTo_only_dst l₁ d a c had
+      omega
 
 /-- with a negative coin it is the *receiver* that is debited — a holder the signature does not
     cover (the shape of S26: PROPOSAL_WITHDRAW_FUNDS with a negative value debits `Beneficiary`) -/
 theorem negative_coin_debits_receiver :
     ∃ l', transfer [("funder", 5), ("victim", 10)] "funder" "victim" (-4) = .ok l' ∧
-      bal l' "victim" < bal [("funder", 5), ("victim", 10)] "victim" := sorry
+      bal l' "victim" < bal [("funder", 5), ("victim", 10)] "victim" := by
+  exact ⟨[("funder", 9), ("victim", 6)], by rfl, by decide⟩
 
 /-- SEND at full strength: whatever the amount, only `From` (its signer) can lose value -/
 theorem send_debits_only_from (l l' : L) (s d a : Acc) (amt : Int)
-    (h : send l s d amt = .ok l') (hd : bal l' a < bal l a) : a = s := sorry
+    (h : send l s d amt = .ok l') (hd : bal l' a < bal l a) : a = s := by
+  obtain ⟨ha, ht⟩ := send_ok l l' s d amt h
+  exact transfer_debits_only_src l l' s d a amt ha ht hd
 
 /-- the fee step only ever charges the first signer (non-negative charge) -/
 theorem feeStep_debits_only_signer (l l' : L) (s p a : Acc) (price used : Int) (hp : 0 ≤ price * used)
-    (h : feeStep l s p price used = .ok l') (hd : bal l' a < bal l a) : a = s := sorry
+    (h : feeStep l s p price used = .ok l') (hd : bal l' a < bal l a) : a = s := by
+  exact transfer_debits_only_src l l' s p a (price * used) hp h hd
 
 theorem txSend_debits_only_from (l l' : L) (s d p a : Acc) (amt price used : Int)
     (hp : 0 ≤ price * used) (h : txSend l s d p amt price used = .ok l')
-    (hd : bal l' a < bal l a) : a = s := sorry
+    (hd : bal l' a < bal l a) : a = s := by
+  obtain ⟨l₁, hs, hf⟩ := txSend_ok l l' s d p amt price used h
+  by_cases h1 : bal l₁ a < bal l a
+  · exact send_debits_only_from l l₁ s d a amt hs h1
+  · exact feeStep_debits_only_signer l₁ l' s p a price used hp hf (by omega)
 
 /-- lifting: a block whose every transaction only debits holders in `auth tx` only debits holders
     authorised by some transaction of the block -/
 theorem block_debits_only_authorised {Tx : Type} (step : L → Tx → L) (auth : Tx → Acc → Prop)
     (hstep : ∀ l tx a, bal (step l tx) a < bal l a → auth tx a)
     (l : L) (txs : List Tx) (a : Acc) (hd : bal (txs.foldl step l) a < bal l a) :
-    ∃ tx ∈ txs, auth tx a := sorry
+    ∃ tx ∈ txs, auth tx a := by
+  induction txs generalizing l with
+  | nil => simp at hd
+  | cons tx t ih =>
+    simp only [List.foldl_cons] at hd
+    by_cases h1 : bal (step l tx) a < bal l a
+    · exact ⟨tx, List.mem_cons_self, hstep l tx a h1⟩
+    · obtain ⟨tx', hm, ha⟩ := ih (step l tx) (by omega)
+      exact ⟨tx', List.mem_cons_of_mem _ hm, ha⟩
 
-example : ∃ l', send [("a", 5), ("b", 0)] "a" "b" 3 = .ok l' ∧ bal l' "a" < bal [("a", 5), ("b", 0)] "a" := sorry
+example : ∃ l', send [("a", 5), ("b", 0)] "a" "b" 3 = .ok l' ∧ bal l' "a" < bal [("a", 5), ("b", 0)] "a" :=
+  ⟨[("a", 2), ("b", 3)], by rfl, by decide⟩
 
 end OLP.Props.C03
